@@ -397,15 +397,35 @@ def run(ctx):
     rg = CFG(reg)
     rrd = ReachingDefs(rg)
     conv = [(n, c) for n in rg.nodes for c in calls_at(n) if isinstance(c.func, ast.Attribute) and c.func.attr == 'convert']
-    adds = [(n, c) for n, c in call_nodes(rg, 'self._data_session.add')]
-    okr = len(conv) == 1 and len(adds) == 1
+    okr = len(conv) == 1
     if okr:
         a = conv[0][1].args[0]
         vals = rrd.values(conv[0][0], a.id) if isinstance(a, ast.Name) else []
         okr = len(vals) == 1 and U(vals[0]) == 'payload.managed_object'
         tgt = conv[0][1]._parent.targets[0].id if isinstance(conv[0][1]._parent, ast.Assign) else None
-        okr = okr and U(adds[0][1].args[0]) == tgt and len(rrd.reaching(adds[0][0], tgt)) == 1
+        adds = m.add_nodes(rg, tgt) if tgt else []
+        okr = okr and len(adds) == 1 and len(rrd.reaching(adds[0], tgt)) == 1
     ctx.check(okr, 'C05.R5', 'KmipEngine._process_register|stores-supplied-object', m.site(reg, reg), 'the object added is the conversion of payload.managed_object', 'Register does not store the conversion of the supplied managed object')
+
+    # ---------------- R6 no row sharing between objects (an attribute stored for one object is never another object's row)
+    ctx.rule('C05.R6', 'attribute rows linked into an object are freshly built; a row fetched from the store is never attached to a second object (its later modification or ordering would alter what the first object reports)')
+    from ..engai import EngineAI
+    ai = EngineAI(src)
+    ai.run_all()
+    shared = {}
+    n_add = 0
+    for e in ai.events:
+        if e['kind'] == 'mutation' and e['how'] in ('append', 'extend', 'insert', 'setitem'):
+            n_add += 1
+            bad = [x for x in e['sources'] if x[1] == 'other:query']
+            if bad:
+                shared.setdefault((e['ctx'][0], e['fn'], e['line'], e['field']), set()).update(x[0] for x in bad)
+    ctx.count('collection_stores', n_add, 5)
+    for (root, fn, line, field), names in sorted(shared.items()):
+        ctx.fail('C05.R6', 'KmipEngine.%s|shares-stored-row %s|via %s' % (fn, field, root), '%s:%s KmipEngine.%s' % (ENGINE, line, fn),
+                 'a row taken from the object store (%s) is attached to field %s of another object: the attributes reported for one object then depend on operations on the other' % (sorted(names), field))
+    if not shared:
+        ctx.ok('C05.R6', ENGINE, 'all %d collection stores attach freshly built rows' % n_add)
     ctx.not_decided += ['byte fidelity of values through SQLite/SQLAlchemy/TTLV for arbitrary values; restarts on the same database file',
                         'GetAttributes reporting exactly the supplied attributes for arbitrary values']
     ctx.assumptions += ['ROLE alias table (key_value/certificate_value/opaque_data_value <-> value, etc.) transcribes the field roles']
